@@ -195,6 +195,8 @@ ScriptDup == <<{"Scrape"}, {"Scrape"}, {"Truncate", "Evict"}, {"Scrape"}, {"Rest
 \* side records (exemplar / metadata / tombstone) of a series that is then dropped or duplicated
 ScriptSide == <<{"Scrape"}, {"Exemplar", "Meta", "Delete"}, {"Scrape", "Meta", "Exemplar"}, {"Scrape", "Evict", "Truncate"},
                 {"Truncate", "Restart"}, {"Scrape", "Restart"}, {"Truncate"}>>
+\* two refs of one label set, both with metadata, in one checkpoint: the latest must win (was KF-C15-3)
+ScriptMeta == <<{"Scrape"}, {"Meta"}, {"Scrape"}, {"Truncate"}, {"Scrape"}, {"Meta"}, {"Meta"}, {"Restart"}, {"Truncate", "Meta"}, {"Truncate"}>>
 \* the highest ref expires, restart, a new series: must get a fresh ref (was KF-C15-4)
 ScriptReuse == <<{"Scrape"}, {"Scrape"}, {"Scrape", "Meta"}, {"Meta", "Scrape", "Exemplar"}, {"Truncate"},
                  {"Restart"}, {"Scrape"}>>
@@ -482,8 +484,12 @@ Class ==
       dep  == {LogP[i].k : i \in {j \in 1..Len(LogP) : LogP[j].k # "S" /\ LogP[j].ref \notin Refs(hs') /\ Live(LogP[j], T')}}
       kinds == {cpE[i].k : i \in 1..Len(cpE)}
       nmeta == Cardinality({i \in 1..Len(full) : full[i].k = "M"})
+      \* live exemplars that this step removed from the log (dropped together with their series record)
+      xlost == \E i \in 1..Len(Log) : Log[i].k = "X" /\ Log[i].t >= T' /\ ~\E j \in 1..Len(LogP) : LogP[j] = Log[i]
+      \* several refs in the checkpoint's metadata record (their order matters to the replay)
+      mrefs == Cardinality({cpE[i].ref : i \in {j \in 1..Len(cpE) : cpE[j].k = "M"}})
   IN IF st.a = "Truncate" THEN <<"Truncate", st.ckpt, st.ord, orph, dup, DOMAIN exp' # {}, Cardinality(hs'),
-                                 kexp, edge, dep, kinds, nmeta, hs' = hs>>
+                                 kexp, edge, dep, kinds, nmeta, xlost, mrefs, hs' = hs>>
      ELSE IF st.a = "Restart" THEN <<"Restart", st.unk > 0, orph, dup, DOMAIN exp' # {}, Cardinality(hs'), cp.idx >= 0, dep, kinds>>
      ELSE IF st.a = "Scrape" THEN <<"Scrape", Len(st.labs), st.cut, dup, orph, cp.idx >= 0, lastRef' - lastRef, reused'>>
      ELSE <<st.a, orph, dup, cp.idx >= 0>>
